@@ -746,7 +746,8 @@ pub fn structure_fault(schema: &MapSchema, root: &V, rng: &mut Rng) -> (V, Struc
                     V::N((1 << 63) - 1), V::N(1 << 63), V::U((1 << 63) - 1), V::U(1 << 63), V::N(127), V::N(128), V::N(32767), V::N(32768),
                     V::U(127), V::U(128), V::N(0xffff_ffff), V::N(1 << 32),
                 ];
-                let v = rng.pick(&cands).clone();
+                // small values too: gaps in enumerations, zero, one past a small table
+                let v = if rng.chance(1, 3) { V::U(rng.below(17)) } else { rng.pick(&cands).clone() };
                 let d = cbor::show(&v);
                 let r = replace(root, &s.path, |_| v).unwrap();
                 return (r, StructFault { kind: "int_range", desc: format!("{} set to {}", s.name, d) });
